@@ -114,10 +114,11 @@ def convert(trace_path, out_path):
     n_inv = 0
     with open(trace_path) as f, open(out_path, "w") as out:
         sc, run = "", 0
+        restat_graph = False
         inv = None   # dict(mode, verbose, calls: [(kind, fields, src_line)], chunks: [(call_index, bytes)], info)
 
         def finish(ok, src):
-            nonlocal inv, n_inv
+            nonlocal inv, n_inv, restat_graph
             if inv is None:
                 return
             stream = b"".join(c for _, c in inv["chunks"])
@@ -143,7 +144,9 @@ def convert(trace_path, out_path):
                 ev = {"e": kind, "obs": obs, "src": src_line}
                 ev.update(fields)
                 out.write(json.dumps(ev) + "\n")
-            out.write(json.dumps({"e": "End", "ok": ok, "src": src}) + "\n")
+            # statements taken out of the plan (restat pruning) after the last status line was written: that line is a snapshot
+            # with the larger total.  H1 sees the Status calls; for the real binary a restat statement in the graph is enough.
+            out.write(json.dumps({"e": "End", "ok": ok, "pruned": bool(inv.get("pruned") or (inv["mode"] == "h2" and restat_graph)), "src": src}) + "\n")
             n_inv += 1
             inv = None
 
@@ -153,6 +156,9 @@ def convert(trace_path, out_path):
             if e == "Reset":
                 finish(False, ln)
                 sc, run = j["sc"], j["run"]
+                restat_graph = any(st.get("restat") or st.get("ddr") for st in j.get("g", {}).get("stmts", []))
+            elif e == "Env" and "g" in j:
+                restat_graph = any(st.get("restat") or st.get("ddr") for st in j["g"].get("stmts", []))
             elif e == "Printer":
                 finish(False, ln)
                 inv = {"mode": j["mode"], "verbose": j.get("verbose", False), "fmt": j.get("fmt", ""), "calls": [], "chunks": [], "info": {}, "src": ln}
@@ -164,6 +170,10 @@ def convert(trace_path, out_path):
                 elif c == "finished":
                     inv["info"].setdefault(j["s"], {}).update(cmd=j["cmd"], desc=j["desc"], outs=j["outs"], code=j["code"], out=j["out"])
                     inv["calls"].append(("Finished", {"s": j["s"], "console": j["console"], "code": j["code"], "out": bool(j["out"])}, ln))
+                    inv["pruned"] = False
+                elif c == "remove":
+                    inv["pruned"] = True
+                    inv["calls"].append(("Other", {}, ln))
                 elif c == "buildfinished":
                     inv["calls"].append(("BuildFinished", {}, ln))
                 else:
